@@ -24,13 +24,13 @@
     ([lfmt_ok_F32/F64], [bell_ok_F32/F64] are vm_compute over all 651 + 76 entries).
     SOURCE TIE (tools/rs2coq): the functions named below are ALSO regenerated from the Rust source on every
     run by a syn-based translator (coq/gen/Src.v) and proved EQUAL to the hand-written model functions the
-    theorems above are about ([rs_*_eq], proofs/SrcEquiv*.v) - for all inputs and both build modes; a change to
+    theorems above are about ([rs_*_eq], proofs/SrcEq*.v) - for all inputs and both build modes; a change to
     that Rust code changes the generated file and breaks these equalities.
     Here: lemire, compute_float, compute_error, compute_error_scaled, compute_product_approx, full_multiplication, power (lemire.rs); bellerophon, error_is_accurate, normalize, mul, get_small, get_large, get_small_int (bellerophon.rs). *)
 
 From Coq Require Import ZArith QArith List Bool Reals.
 From ML Require Import base.RustSem model.Fmt model.Num model.Number model.Rounding model.Bellerophon model.Lemire spec.Decimal spec.Round spec.RoundFacts spec.RneZ spec.RneBridge
-  gen.Consts gen.Tables gen.BTables proofs.TableFacts proofs.BellFacts0 proofs.BellFacts1 proofs.BellFacts2 proofs.BellFacts3 proofs.BellFacts4 proofs.BellFacts5 proofs.LemireFacts0 proofs.LemireFacts1 proofs.LemireFacts5 gen.Src proofs.SrcEquiv proofs.SrcEquiv2.
+  gen.Consts gen.Tables gen.BTables proofs.TableFacts proofs.BellFacts0 proofs.BellFacts1 proofs.BellFacts2 proofs.BellFacts3 proofs.BellFacts4 proofs.BellFacts5 proofs.LemireFacts0 proofs.LemireFacts1 proofs.LemireFacts5 gen.Src proofs.SrcEqBase proofs.SrcEqLemire proofs.SrcEqBell.
 
 Open Scope Z_scope.
 
